@@ -268,6 +268,23 @@ pub fn run(o: &Opts) -> Report {
         // triangulation errors carry a payload in the model's answer: compare the class only
         impls.push(wire);
     }
+    // history: the same request repeated in ONE thread with a different limit / tolerance / resolution each time
+    // (each call must equal the closure-level generator on its own arguments, whatever was asked before)
+    {
+        let base: Vec<&(Case, Vec<Vec<[f64; 2]>>)> = cases.iter().filter(|c| c.0.kind == "quadratic" || c.0.kind == "smooth").take(if o.thorough { 12 } else { 4 }).collect();
+        for (c0, _) in base {
+            let seq: Vec<Cfg> = vec![
+                Cfg { ci: true, mi: 60, ..c0.cfg.clone() }, Cfg { ci: true, mi: 0, ..c0.cfg.clone() }, Cfg { ci: true, mi: 1, ..c0.cfg.clone() }, Cfg { ci: true, mi: 60, ..c0.cfg.clone() },
+                Cfg { ci: true, mi: 60, tol: c0.cfg.tol * 1e-3, ..c0.cfg.clone() }, Cfg { ci: false, mi: 60, ..c0.cfg.clone() }, Cfg { ci: true, mi: 60, xr: c0.cfg.xr + 1, ..c0.cfg.clone() }];
+            for cfg in seq {
+                let c = Case { cfg, ..c0.clone() };
+                let sw = match run_string_api(&c) { Out3::Ok(ds) => format!("ok {} {}", ds.len(), ds.iter().map(dump3).collect::<Vec<_>>().join(" ")), Out3::Err(m) => err_class(&m), Out3::Panic(_) => "panic".into() };
+                let cw = match run_closure_api(&c) { Some(Ok(ds)) => format!("ok {} {}", ds.len(), ds.iter().map(dump3).collect::<Vec<_>>().join(" ")), Some(Err(m)) => if m == "panic" { "panic".into() } else { err_class(&m) }, None => "uncompilable".into() };
+                rep.cases += 1; rep.count("kind:history");
+                if sw != cw { rep.finding("oracle", &["C19"], "string-api-differs-from-closure-api", format!("(after earlier calls in the same thread) {}", c.text()), format!("string: {} | closure: {}", &sw[..sw.len().min(200)], &cw[..cw.len().min(200)])); }
+            }
+        }
+    }
     let answers = run_driver_par(&o.drv, &reqs, o.jobs);
     for (((c, _), imp), ans) in cases.iter().zip(impls.iter()).zip(answers.iter()) {
         rep.model_compared += 1;
